@@ -750,6 +750,31 @@ pub fn prog_strategy() -> BoxedStrategy<Op> {
         .boxed()
 }
 
+/// Programs dominated by rule / atomicity / tag nesting around sequences that fail late and whose failure is
+/// absorbed: the shapes on which "what a failed sequence takes back" depends on the atomicity in force.
+pub fn token_heavy_strategy() -> BoxedStrategy<Op> {
+    let leaf = prop_oneof![
+        4 => prop_oneof![Just("a"), Just("b"), Just("ab"), Just("")].prop_map(|s| Op::Str(s.to_string())),
+        2 => Just(Op::Str("zz".into())), // fails on almost every input
+        1 => (0u8..3).prop_map(Op::Tag),
+        1 => Just(Op::Eoi),
+        1 => (0usize..2).prop_map(Op::Skip),
+    ];
+    leaf.prop_recursive(6, 30, 4, |inner| {
+        prop_oneof![
+            6 => proptest::collection::vec(inner.clone(), 2..4).prop_map(Op::Seq),
+            1 => proptest::collection::vec(inner.clone(), 2..3).prop_map(Op::Chain),
+            2 => proptest::collection::vec(inner.clone(), 2..3).prop_map(Op::OrElse),
+            3 => inner.clone().prop_map(|x| Op::Opt(Box::new(x))),
+            1 => inner.clone().prop_map(|x| Op::Rep(Box::new(x))),
+            1 => (any::<bool>(), inner.clone()).prop_map(|(p, x)| Op::Look(p, Box::new(x))),
+            5 => (0u8..3, inner.clone()).prop_map(|(a, x)| Op::Atomic(a, Box::new(x))),
+            6 => (0u8..4, inner.clone()).prop_map(|(r, x)| Op::Rule(r, Box::new(x))),
+        ]
+    })
+    .boxed()
+}
+
 pub fn input_strategy() -> impl Strategy<Value = String> {
     proptest::collection::vec(0..INPUT_ALPHA.len(), 0..10).prop_map(|v| v.iter().map(|i| INPUT_ALPHA[*i]).collect())
 }
@@ -771,6 +796,15 @@ pub fn run(ctx: &mut Ctx) {
     let n = ctx.share(ctx.tier.pick(1_500_000, 30_000_000));
     let strat = (prog_strategy(), proptest::collection::vec(input_strategy(), 6));
     ctx.run_prop(n, 1, strat, |ctx, (prog, inputs)| {
+        for i in inputs {
+            check(ctx, prog, i)?;
+        }
+        Ok(())
+    });
+    // token-heavy stream: rule / atomic / tag nesting around late-failing sequences
+    let strat = (token_heavy_strategy(), proptest::collection::vec(input_strategy(), 4));
+    ctx.run_prop(n / 3, 2, strat, |ctx, (prog, inputs)| {
+        ctx.class("stream:token-heavy");
         for i in inputs {
             check(ctx, prog, i)?;
         }
